@@ -1,19 +1,15 @@
 (* C06 — takeCPUs / takePreferredCPUs at the level of their results, the FullPCPUs overshoot
    witness, and the bind-policy verdicts. *)
 From Coq Require Import List ZArith Bool Lia Permutation.
-From Verif Require Import C06.Model C06.Spec C06.Proofs_base C06.Proofs_gen C06.Proofs_take C06.Proofs_take2.
+From Verif Require Import C06.Model C06.OldModel C06.Spec C06.Proofs_base C06.Proofs_gen C06.Proofs_take C06.Proofs_take2.
 Import ListNotations.
 Open Scope Z_scope.
 
 (* ------------------------------------------------------------------ takeCPUs *)
-Definition aligned (T : topo) (n bind : Z) : Prop := (bind =? 1) = true -> (cpc T | n).
-
 Lemma take_cpus_spec c avail allocated n bind s :
   NoDup (map cid (c_topo c)) ->
   take_cpus c avail allocated n bind = Some s ->
-  NoDup s /\ incl s avail /\ incl s (map cid (c_topo c))
-  /\ Z.max 0 n <= lenZ s
-  /\ (aligned (c_topo c) n bind -> lenZ s = Z.max 0 n).
+  NoDup s /\ incl s avail /\ incl s (map cid (c_topo c)) /\ lenZ s = Z.max 0 n.
 Proof.
   intros HT H. unfold take_cpus in H.
   destruct (take_cpus_acc c avail allocated n bind) as [a|] eqn:E; [|discriminate].
@@ -24,7 +20,6 @@ Proof.
     apply filter_In in Hy. destruct Hy as [_ Hy]. apply memZ_In in Hy. congruence.
   - intros x Hx. apply H2 in Hx. apply in_map_iff in Hx. destruct Hx as [y [Ey Hy]].
     apply filter_In in Hy. destruct Hy as [Hy _]. apply in_map_iff. exists y. auto.
-  - pose proof (lenZ_nonneg (a_res a)). lia.
 Qed.
 
 Lemma take_cpus_complete c avail allocated n bind :
@@ -47,16 +42,21 @@ Proof.
     [exact Hlt|]. exfalso. apply (take_cpus_complete c avail allocated n bind HT); [lia|exact H].
 Qed.
 
-(* ------------------------------------------------------------------ the overshoot *)
+(* ------------------------------------------------------------------ the overshoot before 43d7136 *)
 (* 3 sockets x 4 cores x 2 threads, two cores of every socket already taken, 7 CPUs
-   requested with FullPCPUs: 8 CPUs are returned *)
+   requested with FullPCPUs: the old socket loop returned 8 CPUs, the current one 7 *)
 Definition overshoot_topo : topo :=
   map (fun i => let z := Z.of_nat i in mkCpu z ((z / 8) * 65536 + z / 2) (z / 8) (z / 8)) (seq 0 24).
 Definition overshoot_avail : list Z := [4; 5; 6; 7; 12; 13; 14; 15; 20; 21; 22; 23].
 
-Lemma take_overshoot_witness :
-  take_cpus (mkCfg overshoot_topo 1 0 true) overshoot_avail [] 7 1
+Lemma take_overshoot_old :
+  take_cpus_old (mkCfg overshoot_topo 1 0 true) overshoot_avail [] 7 1
   = Some [4; 5; 6; 7; 12; 13; 20; 21].
+Proof. vm_compute. reflexivity. Qed.
+
+Lemma take_overshoot_fixed :
+  take_cpus (mkCfg overshoot_topo 1 0 true) overshoot_avail [] 7 1
+  = Some [4; 5; 6; 7; 12; 13; 14].
 Proof. vm_compute. reflexivity. Qed.
 
 (* ------------------------------------------------------------------ takePreferredCPUs *)
@@ -76,41 +76,34 @@ Lemma take_stage2 c avail allocated n bind res n' av2 s :
   NoDup res -> incl res avail -> incl res (map cid (c_topo c)) ->
   incl av2 avail -> (forall x, In x av2 -> ~ In x res) ->
   n' = n - lenZ res ->
-  (n' <= 0 -> Z.max 0 n <= lenZ res) ->
-  ((bind =? 1) = false -> n' <= 0 -> lenZ res = Z.max 0 n) ->
+  (n' <= 0 -> lenZ res = Z.max 0 n) ->
   (if 0 <? n'
    then match take_cpus c av2 allocated n' bind with
         | None => None
         | Some cpus => Some (set_union res cpus)
         end
    else Some res) = Some s ->
-  NoDup s /\ incl s avail /\ incl s (map cid (c_topo c))
-  /\ Z.max 0 n <= lenZ s
-  /\ ((bind =? 1) = false -> lenZ s = Z.max 0 n).
+  NoDup s /\ incl s avail /\ incl s (map cid (c_topo c)) /\ lenZ s = Z.max 0 n.
 Proof.
-  intros HT R1 R2 R3 Hav2 Hdis2 R4 R5 R6 H.
+  intros HT R1 R2 R3 Hav2 Hdis2 R4 R6 H.
   destruct (0 <? n') eqn:En.
   - apply Z.ltb_lt in En.
     destruct (take_cpus c av2 allocated n' bind) as [cpus|] eqn:E2; [|discriminate].
     inversion H; subst s.
-    destruct (take_cpus_spec c _ allocated _ bind cpus HT E2) as [H1 [H2 [H3 [H4 H5]]]].
+    destruct (take_cpus_spec c _ allocated _ bind cpus HT E2) as [H1 [H2 [H3 H5]]].
     assert (Hd : forall x, In x cpus -> ~ In x res) by (intros x Hx; apply Hdis2; apply H2; exact Hx).
     rewrite (set_union_disjoint _ _ H1 Hd). splits.
     + apply NoDup_app_intro; auto. intros x Hx Hx'. exact (Hd x Hx' Hx).
     + intros x Hx. apply in_app_or in Hx. destruct Hx as [Hx|Hx]; [apply R2; exact Hx|apply Hav2; apply H2; exact Hx].
     + intros x Hx. apply in_app_or in Hx. destruct Hx as [Hx|Hx]; auto.
-    + rewrite lenZ_app. pose proof (lenZ_nonneg res). pose proof (lenZ_nonneg cpus). lia.
-    + intros Hb. rewrite lenZ_app. rewrite H5 by (unfold aligned; rewrite Hb; discriminate).
-      pose proof (lenZ_nonneg res). lia.
+    + rewrite lenZ_app, H5. pose proof (lenZ_nonneg res). lia.
   - apply Z.ltb_ge in En. inversion H; subst s. splits; auto.
 Qed.
 
 Lemma take_preferred_spec c avail preferred allocated n bind s :
   NoDup (map cid (c_topo c)) ->
   take_preferred c avail preferred allocated n bind = Some s ->
-  NoDup s /\ incl s avail /\ incl s (map cid (c_topo c))
-  /\ Z.max 0 n <= lenZ s
-  /\ ((bind =? 1) = false -> lenZ s = Z.max 0 n).
+  NoDup s /\ incl s avail /\ incl s (map cid (c_topo c)) /\ lenZ s = Z.max 0 n.
 Proof.
   intros HT H. unfold take_preferred in H.
   destruct (filter (fun i => memZ i preferred) avail) as [|p0 pref0] eqn:Ep.
@@ -122,13 +115,12 @@ Proof.
     + intros x _ [].
     + cbn. lia.
     + intros Hle. cbn. lia.
-    + intros _ Hle. cbn. lia.
     + exact H.
   - set (pref := p0 :: pref0) in *.
     assert (Hpref : incl pref avail).
     { intros x Hx. rewrite <- Ep in Hx. apply filter_In in Hx. tauto. }
     destruct (take_cpus c pref allocated (Z.min n (lenZ pref)) bind) as [r|] eqn:E; [|discriminate].
-    destruct (take_cpus_spec c _ allocated _ bind r HT E) as [H1 [H2 [H3 [H4 H5]]]].
+    destruct (take_cpus_spec c _ allocated _ bind r HT E) as [H1 [H2 [H3 H5]]].
     pose proof (lenZ_nonneg pref) as Hp0.
     eapply (take_stage2 c avail allocated n bind r (n - lenZ r)
               (filter (fun i => negb (memZ i pref)) avail) s HT); try exact H; auto.
@@ -137,7 +129,6 @@ Proof.
     + intros x Hx Hr. apply filter_In in Hx. destruct Hx as [_ Hx]. apply negb_true_iff in Hx.
       apply memZ_false in Hx. apply Hx. apply H2. exact Hr.
     + intros Hle. lia.
-    + intros Hb Hle. rewrite H5 by (unfold aligned; rewrite Hb; discriminate). rewrite H5 in Hle by (unfold aligned; rewrite Hb; discriminate). lia.
 Qed.
 
 (* ------------------------------------------------------------------ bind policies *)
